@@ -15,7 +15,8 @@ func init() {
 			Volatile: false,
 			Actors: []ActorSpec{
 				{Name: "reader", Reader: &ReaderSpec{Backoff: true}},
-				{Name: "A", Ops: []Op{{Kind: "pub0", Topic: "w/a", Msg: []byte("A-0123456789-0123456789-0123456789-end")}}},
+				// a denied request first: refusals must leave no trace, not even in the buffer pool
+				{Name: "A", Ops: []Op{{Kind: "pub1", Topic: "", Msg: []byte("denied-no-topic")}, {Kind: "pub2", Topic: "bad\x00topic", Msg: []byte("denied-nul")}, {Kind: "pub0", Topic: "w/a", Msg: []byte("A-0123456789-0123456789-0123456789-end")}}},
 				{Name: "B", Ops: []Op{{Kind: "sub", Filters: []string{"w/b"}}}},
 				{Name: "C", Ops: []Op{{Kind: "ping"}, {Kind: "pub0r", Topic: "w/c", Msg: []byte{}}}},
 				{Name: "D", Ops: []Op{{Kind: "pub1", Topic: "w/d", Msg: []byte("D-payload")}}},
@@ -113,6 +114,17 @@ func init() {
 			}
 		}
 	}
+	register("shutdownbig", func() *Scenario {
+		s := mkShutdown([]ActorSpec{{Name: "X", Ops: []Op{{Kind: "close"}}}}, false)()
+		s.ReadBuf = 64
+		s.Inbound = []InMsg{{QoS: 0, Topic: "big/0", Body: pay("big-unread", 150)}, {QoS: 1, ID: 3, Topic: "big/1", Body: pay("big-q1", 100)}}
+		s.Actors = []ActorSpec{
+			{Name: "reader", Reader: &ReaderSpec{Backoff: true, ReadBig: false}},
+			{Name: "P", Ops: []Op{{Kind: "pub1", Topic: "s/p", Msg: []byte("P-payload")}}},
+			{Name: "X", Ops: []Op{{Kind: "close"}}},
+		}
+		return s
+	})
 	register("shutdown1", mkShutdown([]ActorSpec{{Name: "X", Ops: []Op{{Kind: "close"}}}}, false))
 	register("shutdown1lazy", mkShutdown([]ActorSpec{{Name: "X", Ops: []Op{{Kind: "close"}}}}, true))
 	register("shutdown2", mkShutdown([]ActorSpec{{Name: "X", Ops: []Op{{Kind: "disc"}}}, {Name: "Y", Ops: []Op{{Kind: "close"}}}}, false))
